@@ -27,6 +27,8 @@ type ShardOpts struct {
 	Watchdog  time.Duration // a case in flight longer than this is a stall (0 = 60s)
 	MemLimit  uint64        // address-space limit per worker in bytes (0 = none)
 	ExtraArgs []string
+	bin       string
+	idArg     string
 	// ExtraArgsNow, if set, supplies additional worker arguments each time a worker is (re)started.
 	ExtraArgsNow func() []string
 	// WatchdogNow, if set, overrides Watchdog each time a worker is (re)started.
@@ -254,9 +256,23 @@ func (r *Run) RunOne(i int, wd time.Duration, opts ShardOpts) (bool, string, str
 	return died, kind, tail
 }
 
+// RunForeign runs another binary's check as a single worker of this run (same protocol): its
+// violations, counters and samples are merged into r. idArg is the check id the binary knows.
+func (r *Run) RunForeign(bin, idArg string, extra []string, wd time.Duration) (died bool, kind, tail string) {
+	dir, _ := os.MkdirTemp("", "vforeign")
+	defer os.RemoveAll(dir)
+	opts := ShardOpts{ExtraArgs: extra, bin: bin, idArg: idArg}
+	died, _, kind, tail = r.runWorker(0, 1, 0, -1, dir, wd, opts)
+	return
+}
+
 func (r *Run) runWorker(k, of, resume, only int, dir string, wd time.Duration, opts ShardOpts) (died bool, at int, kind, tail string) {
 	prog := fmt.Sprintf("%s/p%d-%d", dir, k, time.Now().UnixNano())
-	args := []string{r.ID, r.Tier, "--shard", fmt.Sprintf("%d/%d", k, of), "--resume", strconv.Itoa(resume), "--progress", prog}
+	id, bin := r.ID, os.Args[0]
+	if opts.bin != "" {
+		id, bin = opts.idArg, opts.bin
+	}
+	args := []string{id, r.Tier, "--shard", fmt.Sprintf("%d/%d", k, of), "--resume", strconv.Itoa(resume), "--progress", prog}
 	if only >= 0 {
 		args = append(args, "--only", strconv.Itoa(only))
 	}
@@ -264,7 +280,7 @@ func (r *Run) runWorker(k, of, resume, only int, dir string, wd time.Duration, o
 	if opts.ExtraArgsNow != nil {
 		args = append(args, opts.ExtraArgsNow()...)
 	}
-	cmd := exec.Command(os.Args[0], args...)
+	cmd := exec.Command(bin, args...)
 	cmd.Env = append(os.Environ(), "GOMAXPROCS=2", "GOGC=400", fmt.Sprintf("VERIF_SEED=%d", r.Seed))
 	if opts.MemLimit > 0 {
 		cmd.Env = append(cmd.Env, fmt.Sprintf("GOMEMLIMIT=%d", opts.MemLimit*3/4), fmt.Sprintf("VERIF_AS_LIMIT=%d", opts.MemLimit))
@@ -368,6 +384,9 @@ func (r *Run) runWorker(k, of, resume, only int, dir string, wd time.Duration, o
 	if werr != nil || !gotDone {
 		cur := readProgress(prog)
 		if cur == 0 {
+			if opts.bin != "" {
+				return true, -1, "exit", errTail.String()
+			}
 			Infra("worker %d failed outside any case: %v: %s", k, werr, errTail.String())
 		}
 		return true, int(cur - 1), "exit", errTail.String()
